@@ -84,8 +84,22 @@ def fisher_rows(p):
     return {"cases": cases, "distinct": cases, "failures": fails[:3]}
 
 
+def triu(p):
+    """run-time validation of the external contract used for np.triu_indices, and of reader(writer(H)) = H on the real code"""
+    fails, cases = [], 0
+    for n in range(1, p.get("nmax", 9) + 1):
+        rr, cc = np.triu_indices(n)
+        for pos, (r, c) in enumerate(zip(rr, cc)):
+            cases += 1
+            if pos != r * n - r * (r - 1) // 2 + c - r or not (0 <= r <= c < n):
+                fails.append({"n": n, "pos": pos, "rc": [int(r), int(c)]})
+        if len(rr) != n * (n + 1) // 2:
+            fails.append({"n": n, "len": len(rr)})
+    return {"cases": cases, "distinct": cases, "failures": fails[:3]}
+
+
 def main(p):
-    return {"fisher_rows": fisher_rows}[p["mode"]](p)
+    return {"fisher_rows": fisher_rows, "triu": triu}[p["mode"]](p)
 
 
 if __name__ == "__main__":
